@@ -284,7 +284,9 @@ func (p *parser) value(off int, t byte, nesting int) (int, bool) {
 		if nesting > p.r.MaxNesting {
 			p.r.MaxNesting = nesting
 		}
-		if nesting == 65 && p.r.DeepOff < 0 {
+		if nesting == 65 && p.r.DeepOff < 0 && rem > 0 {
+			// (with no byte left the 65th container is demanded by the grammar but not met: truncation and
+			// depth are then both causes, in either order)
 			p.r.DeepOff = off
 		}
 		if nesting > oracleDepthCap {
@@ -327,7 +329,9 @@ func (p *parser) value(off int, t byte, nesting int) (int, bool) {
 		if nesting > p.r.MaxNesting {
 			p.r.MaxNesting = nesting
 		}
-		if nesting == 65 && p.r.DeepOff < 0 {
+		if nesting == 65 && p.r.DeepOff < 0 && rem > 0 {
+			// (with no byte left the 65th container is demanded by the grammar but not met: truncation and
+			// depth are then both causes, in either order)
 			p.r.DeepOff = off
 		}
 		if nesting > oracleDepthCap {
@@ -403,7 +407,9 @@ func (p *parser) value(off int, t byte, nesting int) (int, bool) {
 		if nesting > p.r.MaxNesting {
 			p.r.MaxNesting = nesting
 		}
-		if nesting == 65 && p.r.DeepOff < 0 {
+		if nesting == 65 && p.r.DeepOff < 0 && rem > 0 {
+			// (with no byte left the 65th container is demanded by the grammar but not met: truncation and
+			// depth are then both causes, in either order)
 			p.r.DeepOff = off
 		}
 		if nesting > oracleDepthCap {
